@@ -456,26 +456,84 @@ def quiet_parse(parser, argv):
         return ("raised", type(e).__name__)
 
 
+def conforms(v, tp):
+    """is the value v one the declared type tp (a typing object / class) admits?  None only under Optional / Union with None;
+    bool is not an int; an int is not a float (the text of an int read back as float is another value)"""
+    if tp is typing.Any:
+        return True
+    if tp is type(None):
+        return v is None
+    if tp in (int, float, str, bool):
+        return type(v) is tp
+    if tp in (list, tuple, dict):
+        return type(v) is tp
+    origin, args = typing.get_origin(tp), typing.get_args(tp)
+    if origin is typing.Union:
+        return any(conforms(v, a) for a in args)
+    if origin is typing.Literal:
+        return any(type(v) is type(a) and v == a for a in args)
+    if origin is list:
+        return isinstance(v, list) and (not args or all(conforms(x, args[0]) for x in v))
+    if origin is tuple:
+        if not isinstance(v, (tuple, list)) or not args:
+            return isinstance(v, (tuple, list))
+        if len(args) == 2 and args[1] is Ellipsis:
+            return all(conforms(x, args[0]) for x in v)
+        return len(v) == len(args) and all(conforms(x, a) for x, a in zip(v, args))
+    if origin is dict:
+        return isinstance(v, dict) and (len(args) != 2 or all(conforms(k, args[0]) and conforms(x, args[1]) for k, x in v.items()))
+    return False
+
+
 def ir_data_default(p):
-    """('value', v) when the IR gives the parameter an explicit default that is data (a scalar, or back-tick quoted code
-    that evaluates to data: a list / tuple / dict display, a number, a str), else None"""
-    ed = expected_default(p)
-    if ed[0] != "value" or not data_value(ed[1]):
+    """what the run clauses demand of the parameter's option:
+       None            nothing: no explicit default
+       ('out', why)    nothing: a default that is not data of the declared type (back-tick quoted code that is not a literal
+                       display, a value the declared type does not admit, an undeclared / opaque type)
+       ('value', v)    the IR gives the explicit default v: a scalar or None, or a back-tick quoted literal display (list /
+                       tuple / dict of data) - of the declared type
+       ('odd', why)    an explicit default the run clauses do not speak about although it is data of the declared type
+                       (reported shapes: the empty and the one-element sequence)"""
+    if "default" not in p:
         return None
-    d = p.get("default")
-    if isinstance(d, str) and not is_code(d) and d not in NONE_LIKE and ed[1] is not None:
-        # a plain str default: the words as they are
-        return ("value", d)
-    return ed
+    d = p["default"]
+    if d is None or isinstance(d, str) and d in NONE_LIKE:
+        v = None
+    elif is_code(d):
+        try:
+            v = ast.literal_eval(d.strip("`"))
+        except Exception:  # noqa
+            return ("out", "code-not-a-literal")
+    else:
+        v = d
+    if not data_value(v):
+        return ("out", "not-data")
+    try:
+        tp = ev(p["typ"]) if p.get("typ") else None
+    except Exception:  # noqa
+        tp = None
+    if tp is None or isinstance(tp, Stub):
+        return ("out", "undeclared-or-opaque-type")
+    try:
+        if not conforms(v, tp):
+            return ("out", "not-of-the-declared-type")
+    except Exception:  # noqa
+        return ("out", "undeclared-or-opaque-type")
+    if isinstance(v, (list, tuple)) and len(v) < 2:
+        return ("odd", "sequence-of-%d" % len(v))
+    return ("value", v)
 
 
 def argparse_run_checks(ir, ns, parser, by):
-    """default-accepted: for every option whose parameter has an explicit data default, the registered `type` applied to the
-                      default written as text gives the default back (a bool only has to be accepted: bool('False') is True),
-                      and a registered `choices` contains it;
-    parse-defaults:   parse_args with (only) the required options given - each as the text of its own default, or some text
-                      its type accepts - does not exit, and every parameter with an explicit data default comes out with it;
-    parse-given:      parse_args with every option given as the text of its own default does not exit and gives the defaults."""
+    """The registered options at work, for the parameters whose explicit default is data of the declared type (ir_data_default):
+    default-accepted  the registered `type` applied to the default written as text gives the default back (a bool only has to
+                      be accepted: bool('False') is True), and a registered `choices` contains it;
+    parse-defaults    parse_args with (only) the required options given - each as the text of its own default, or, where the IR
+                      gives none, some text its type accepts - does not exit or raise, and every such parameter that was not
+                      given comes out with its default;
+    parse-given       parse_args with every such option given as the text of its own default does not exit or raise and gives
+                      the defaults back.
+    The two parse clauses speak when every explicit default of the IR is of that kind."""
     out = []
     opts = []
     for n, p in ir["params"].items():
@@ -484,52 +542,55 @@ def argparse_run_checks(ir, ns, parser, by):
             return out                                     # options-order already failed
         opts.append((n, p, a, ir_data_default(p)))
     for n, p, a, dv in opts:
-        if dv is None or dv[1] is None:
+        if dv is None or dv[0] != "value" or dv[1] is None:
             continue
         conv = a.type or str
-        members = list(dv[1]) if isinstance(a, argparse._AppendAction) and isinstance(dv[1], (list, tuple)) else [dv[1]]
+        v = dv[1]
         ok, what = True, ""
-        for v in members:
-            try:
-                got = conv(text_of(v, a.type))
-            except Exception as e:  # noqa
-                ok, what = False, "option --%s: the registered type %s rejects the parameter's own default %r (%s)" % (
-                    n, getattr(a.type, "__name__", a.type), v, type(e).__name__)
-                break
+        try:
+            got = conv(text_of(v, a.type))
+        except Exception as e:  # noqa
+            ok, what = False, "option --%s: the registered type %s rejects the parameter's own default %r (%s)" % (
+                n, getattr(a.type, "__name__", a.type), v, type(e).__name__)
+        else:
             if not isinstance(v, bool) and plain(got) != plain(v):
                 ok, what = False, "option --%s: the registered type %s turns the default %r, written as text, into %r" % (
                     n, getattr(a.type, "__name__", a.type), v, got)
-                break
-            if a.choices is not None and got not in a.choices:
+            elif a.choices is not None and got not in a.choices:
                 ok, what = False, "option --%s: the default %r is not among the registered choices %r" % (n, v, tuple(a.choices))
-                break
         out.append(("default-accepted", ok, what))
+    if any(dv is not None and dv[0] != "value" for n, p, a, dv in opts):
+        out.append(("parse-skipped", True, ""))
+        return out
 
-    def given(n, a, dv):
-        if dv is not None and dv[1] is not None:
-            v = dv[1]
-            if isinstance(a, argparse._AppendAction) and isinstance(v, (list, tuple)):
-                return [x for e in v for x in ("--" + n, text_of(e, a.type))]
-            return ["--" + n, text_of(v, a.type)]
-        return ["--" + n, dummy_text(a)]
+    def has_value(dv):
+        return dv is not None and dv[1] is not None
 
-    def compare(clause, res, supplied):
+    def run(clause, which):
+        argv, own = [], set()
+        for n, p, a, dv in opts:
+            if which(a, dv):
+                if has_value(dv):
+                    argv += ["--" + n, text_of(dv[1], a.type)]
+                    own.add(n)
+                else:
+                    argv += ["--" + n, dummy_text(a)]
+                    own.add(n + "/dummy")
+        res = quiet_parse(parser, argv)
         if res[0] != "ok":
-            out.append((clause, False, "parse_args(%r) %s" % (supplied, "exited with status %r: %s" % res[1:] if res[0] == "exit"
-                                                              else "raised %s" % res[1])))
+            out.append((clause, False, "parse_args(%r) %s" % (argv, "exited with status %r: %s" % res[1:] if res[0] == "exit"
+                                                           else "raised %s" % res[1])))
             return
         out.append((clause, True, ""))
         for n, p, a, dv in opts:
-            if dv is None:
+            if dv is None or n + "/dummy" in own or (n in own and isinstance(dv[1], bool)):
                 continue
             got = res[1].get(a.dest, "<missing>")
             ok = plain(got) == plain(dv[1])
-            out.append((clause, ok, "" if ok else "parse_args(%r): %s = %r, the IR's default is %r" % (supplied, n, got, dv[1])))
+            out.append((clause, ok, "" if ok else "parse_args(%r): %s = %r, the IR's default is %r" % (argv, n, got, dv[1])))
 
-    argv = [x for n, p, a, dv in opts if a.required for x in given(n, a, dv)]
-    compare("parse-defaults", quiet_parse(parser, argv), argv)
-    argv = [x for n, p, a, dv in opts if dv is not None and dv[1] is not None or a.required for x in given(n, a, dv)]
-    compare("parse-given", quiet_parse(parser, argv), argv)
+    run("parse-defaults", lambda a, dv: a.required)
+    run("parse-given", lambda a, dv: a.required or has_value(dv))
     return out
 
 
